@@ -132,16 +132,23 @@ inline uint64_t hash_outputs(const ApiCase& c, const ExecResult& r) {
 }
 inline void add_module_ops(std::vector<LsmOp>& ops, const std::vector<uint64_t>& Ns, uint64_t salt = 0) {
   gen_salt() = salt;
-  BoxOpts o; o.Ns = Ns; o.max_size = 2; o.extra_sizes = {}; o.vmp_max_dim = 2; o.vmp_max_size = 2; o.ks = {10}; o.cf = {CFG_NATIVE};
+  BoxOpts o; o.Ns = Ns; o.max_size = 2; o.extra_sizes = {}; o.vmp_max_dim = 2; o.vmp_max_size = 2; o.ks = {10}; o.cf = {CFG_NATIVE}; o.inplace = true;
   for (auto& G : api_groups(o)) {
     if (G.N >= 1024 && G.fam == F_VEC) continue;  // large N: only the transform / product / normalisation entry points
-    // one representative (the last, i.e. largest, shape) per group
-    std::shared_ptr<ApiCase> last;
-    run_group(G, o, [&](ApiCase& c) { if (c.nontrivial) last = std::make_shared<ApiCase>(c); });
-    if (!last) continue;
-    LsmOp op; op.name = last->id + (salt ? sfmt("#data%llu", (unsigned long long)salt) : std::string()); op.family = "module"; op.warm_key = "";
-    op.run = [last] { ExecResult r; ExecOpts eo; eo.prefill = 1; execute(*last, eo, r); return hash_outputs(*last, r); };
-    ops.push_back(op);
+    // representatives per group: the last (i.e. largest) non-trivial shape, and the last non-trivial same-pointer (in-place) call
+    std::shared_ptr<ApiCase> last, last_inplace;
+    run_group(G, o, [&](ApiCase& c) {
+      if (!c.nontrivial) return;
+      bool al = false, inpl = false;
+      for (size_t i = 0; i < c.bufs.size(); ++i) if (c.bufs[i].alias_of >= 0) { al = true; if (c.bufs[root_of(c, (int)i)].role != R_IN) inpl = true; }
+      if (al && !inpl) return;  // two sources sharing one buffer: not an in-place call
+      (al ? last_inplace : last) = std::make_shared<ApiCase>(c); });
+    for (auto& rep : {last, last_inplace}) {
+      if (!rep) continue;
+      LsmOp op; op.name = rep->id + (salt ? sfmt("#data%llu", (unsigned long long)salt) : std::string()); op.family = "module"; op.warm_key = "";
+      op.run = [rep] { ExecResult r; ExecOpts eo; eo.prefill = 1; execute(*rep, eo, r); return hash_outputs(*rep, r); };
+      ops.push_back(op);
+    }
   }
   gen_salt() = 0;
 }
